@@ -178,7 +178,7 @@ func runC17(c *core.Ctx) {
 			continue
 		}
 		t := p.Results[0]
-		ok := t.Op == "lit" && t.Aux == "" && len(calls(p)) == 0
+		ok := t.Op == "lit" && ir.LitBase(t) == nil && len(calls(p)) == 0
 		why := "result is not a composite literal: " + short(t)
 		if ok {
 			var sg, em *ir.Term
@@ -315,13 +315,56 @@ func checkCompare(c *core.Ctx, fn *ssa.Function, cv map[string]int64, okConst bo
 }
 
 func checkEqual(c *core.Ctx, fn *ssa.Function) {
-	if p := singlePath(c, "eq-term", "eq."+fnLabel(fn), fn); p != nil {
-		n := len(fn.Params)
-		t := p.Results[0]
-		ok := t.Op == "bin" && t.Aux == "==" && len(t.Args) == 2 &&
-			(paramOf(t.Args[0], fn, n-2) && paramOf(t.Args[1], fn, n-1) || paramOf(t.Args[0], fn, n-1) && paramOf(t.Args[1], fn, n-2)) &&
-			len(calls(p)) == 0
-		c.Check(ok, "eq-term", "eq."+fnLabel(fn), fn.Pos(), "a == b", "Equal returns %s, expected a == b of its two arguments", short(t))
+	name := "eq." + fnLabel(fn)
+	an := c.Analyze(fn)
+	if problems(c, "eq-term", name, an) {
+		return
 	}
-
+	n := len(fn.Params)
+	isAB := func(t *ir.Term) bool {
+		return t.Op == "bin" && t.Aux == "==" && len(t.Args) == 2 &&
+			(paramOf(t.Args[0], fn, n-2) && paramOf(t.Args[1], fn, n-1) || paramOf(t.Args[0], fn, n-1) && paramOf(t.Args[1], fn, n-2))
+	}
+	ok := len(an.Headers) == 0
+	why := "Equal contains a loop"
+	sawT, sawF := false, false
+	for _, p := range an.AllPaths() {
+		if !ok {
+			break
+		}
+		if p.Exit != ir.ExitReturn || len(p.Results) != 1 || len(calls(p)) != 0 || len(nonLocalStores(p)) != 0 {
+			ok, why = false, "Equal has side effects or can panic"
+			break
+		}
+		r := p.Results[0]
+		if isAB(r) {
+			sawT, sawF = true, true
+			continue
+		}
+		// a decision tree on a == b returning constants
+		truth := 0
+		for _, s := range p.Events(ir.KBranch) {
+			if isAB(s.Atom) {
+				truth = polInt(s.Pol)
+			} else if !s.Atom.IsConst() {
+				ok, why = false, "branch on something other than a == b: "+short(s.Atom)
+			}
+		}
+		if !(r.IsConst() && (r.Aux == "true" || r.Aux == "false")) || truth == 0 {
+			ok, why = false, "Equal returns "+short(r)+" without deciding a == b"
+			break
+		}
+		if (r.Aux == "true") != (truth > 0) {
+			ok, why = false, fmt.Sprintf("Equal returns %s when a == b is %v", r.Aux, truth > 0)
+		}
+		if truth > 0 {
+			sawT = true
+		} else {
+			sawF = true
+		}
+	}
+	if ok && !(sawT && sawF) {
+		ok, why = false, "Equal does not cover both a == b and a != b"
+	}
+	c.Check(ok, "eq-term", name, fn.Pos(), "a == b", "%s", why)
 }
